@@ -1,6 +1,6 @@
 (* Extract/ExtractSyntax.v — entry point of the syntax models (parser; later serializer) for the
    correspondence check.  Result shapes are those of harness/src/bin/syn_run.rs. *)
-From FluentV Require Import Base.Sexp Base.Bytes Base.Outcome Base.Utf8 Syntax.Ast Syntax.ParserModel Syntax.SerializerModel Syntax.Render.
+From FluentV Require Import Base.Sexp Base.Bytes Base.Outcome Base.Utf8 Syntax.Ast Syntax.ParserModel Syntax.SerializerModel Syntax.Render Syntax.Coverage.
 
 Definition enc_kind (k : ekind) : list sexp :=
   match k with
@@ -86,7 +86,7 @@ Definition run_case (c : sexp) : sexp :=
                     match parse s1 with
                     | Done (t2, _) =>
                         match serialize_with_options wj t2 with
-                        | Done s2 => L [sym "ok"; enc_resource t1; A s1; enc_resource t2; A s2]
+                        | Done s2 => L [sym "ok"; enc_resource t1; A s1; enc_resource t2; A s2; L [sym "covered"; sbool (c04_covered t1)]]
                         | Panic m => L [sym "PANIC"; sym m]
                         | OutOfFuel => sym "OUT-OF-FUEL"
                         end
